@@ -15,7 +15,8 @@ Case kinds (every one but arr and montext has a model request):
   arr          a date-time x against a list ns of day counts and the list ds of the dates x+n: x+ns, ns+x, x-ns, ds-x, x-ds,
                judged element by element (oracle only)
   montext      a whole day written as text with an English month name (5 formats) as operand of - + and DAYS (oracle only)
-  add          date-time x and integer n: x+n, n+x, x-n
+  add          date-time x and integer n: x+n, n+x, x-n; also fractional n (a number of eighths of a day, a float): the three
+               variable forms only, judged within the millisecond tolerance
   sub          two date-times: x-y, DAYS(x,y)
   fn           DATEVALUE / N of a date-time given as a variable, as ISO text, as a whole-number serial
   daysweep     a chunk of consecutive days (thorough, search): statement and model on every day
@@ -70,11 +71,14 @@ RULE = ('DAYS 1900-01-01..9999-12-31 (kind day: serialize_date, parse_date of th
         'earlier, all exactly.  ADD (add: x+n, n+x, x-n, integer n): 500*S in five equal streams (whole day with |n| <= 40000; '
         'whole day with n out of -2 -1 0 1 2 7 28 29 30 31 365 366 -365 -366; pool date-time with |n| <= 40000; a day within '
         '400 days of 1 March 1900 or of 9999-12-31 with |n| <= 450; whole day with |n| <= 2958464) + 13 fixed at both ends of '
-        'the range and at 28 Feb 2019 / 2020.  SUB (sub: x-y, DAYS(x,y)): 300*S (two whole days; two whole days at most 400 '
+        'the range and at 28 Feb 2019 / 2020; FRACTIONAL n: 60*S seeded (x a pool date-time or - half - a whole day 60 days .. '
+        '(range - 400 days) after 1900-01-01, n = +-k/8 day as a float, k in 1..2399, i.e. a whole number of milliseconds up to 300 days) '
+        '+ 6 fixed on 2020-01-01 (n = 0.5 -0.5 30.75 0.125 1.5 -2.25): the three variable forms x+n, n+x, x-n only (no literal run), the '
+        'result less than half a millisecond from x + n days (never the exact comparison, also when x is a whole day); 579 add cases at S = 1.  SUB (sub: x-y, DAYS(x,y)): 300*S (two whole days; two whole days at most 400 '
         'apart; two pool date-times) + 5 fixed.  DATEVALUE / N (fn): 300*S (whole day; whole second; pool date-time) + 6 fixed; '
         'DATEVALUE(x), N(x) of the variable, DATEVALUE(t) of the ISO text YYYY-MM-DD[ HH:MM:SS] when a whole second, '
         'DATEVALUE(k) of the whole-number serial when a whole day from 1 March 1900.  Formulas go through Parser.parse with '
-        'variables x y n nn t k; when every date is a whole day cmp/add/sub/fn are run a second time with DATE(y,m,d), number '
+        'variables x y n nn t k; when every date is a whole day (add: and n an integer) cmp/add/sub/fn are run a second time with DATE(y,m,d), number '
         'and text literals (negative n as (0-n)): oracle only, not sent to the model.  day/serial/dt/parse and the sweeps call '
         'utils.serialize_date / utils.parse_date directly.  '
         'PROCESS TIME ZONE: one zone, the POSIX string EST5EDT,M3.2.0,M11.1.0 (no tz database): 00:00 01:30 02:00 02:15 02:30 '
@@ -86,7 +90,7 @@ RULE = ('DAYS 1900-01-01..9999-12-31 (kind day: serialize_date, parse_date of th
         '(S=1: 99 dt, 196 cmp, 40 fn, 10 day): same oracle, same model request.  '
         'MODEL: every case but arr and montext has a request (date.serial / date.parse / c04.batch of the variable formulas with '
         'the dates as date values), those two kinds are oracle-only; answers compared exactly for day, serial, whole-day dt, cmp, cmpn and for '
-        'add/sub/fn on whole days (dates to the microsecond); otherwise floats within 4 ulp (add/sub/fn also within '
+        'add/sub/fn on whole days (dates to the microsecond; add: whenever x is a whole day, also with a fractional n - k/8 day is exact in both); otherwise floats within 4 ulp (add/sub/fn also within '
         '1e-9*max(1,|value|)), dates within 2+|us|/2^49 microseconds; a model answer "no opinion" counts as a disagreement.  '
         'Sweep chunks: one more driver process per chunk answers date.serial and date.parse of the produced serial for every '
         'day, date.parse for every integer serial, compared exactly (first 5 failures / mismatches of a chunk kept); all chunks '
@@ -135,8 +139,9 @@ ASSUMPTIONS = ['"to the millisecond": parse_date(serialize_date(d)) is less than
                '"adding n to a date gives the date n days later", "subtracting two dates gives the days between them" are '
                'corollaries ("Hence") of the Excel-1900 clause and are demanded where that clause applies: operands and '
                'result from 1 March 1900 to 31 December 9999 (1900-01-01 has serial 0 and 1900-01-02 serial 2, so '
-               'DATE(1900,1,1)+1 is 1900-01-01 again: outside the clause, not judged); n is an integer, x+n, n+x and x-n '
-               'must each be a datetime (exact for whole days, else less than half a millisecond off), x-y a number (exact '
+               'DATE(1900,1,1)+1 is 1900-01-01 again: outside the clause, not judged); n is an integer or a number of eighths of a day '
+               '(a float; "n days later" is then x shifted by that many milliseconds), x+n, n+x and x-n '
+               'must each be a datetime (exact for whole days and integer n, else less than half a millisecond off), x-y a number (exact '
                'for whole days, else within 1e-9 day)',
                'comparison operators "see that same serial": on two date-times from 1900 on each of < = > <= >= <> gives what '
                'the same operator gives on the two instants (equivalently, by strict monotonicity, on their serials), as the '
